@@ -15,6 +15,7 @@ OPS = [
     ("rendir", "/d", "/e", {"d", "e"}), ("delete", "/d/a", None, {"d"}), ("create", "/d/n", None, {"d"}), ("mkdir", "/d/s", None, {"d"}),
     ("rename", "/b", "/d/b", {"b", "d"}), ("write", "/d/a", None, {"d"}),
     ("mkdir", "/d", None, {"d"}), ("rename", "/e/a", "/d/a", {"d", "e"}),          # re-using a renamed folder's old name
+    ("rendir", "/d", "/m/d", {"d", "m"}), ("rendir", "/m", "/d", {"d", "m"}),        # moving a folder into another one, then that one onto the vacated name
 ]
 
 
@@ -60,15 +61,18 @@ def _factory(params, env=None):
         e = env or SymEnv()
         _lab.reset()
         lab = Lab(params["flavour"])
-        if base_tree(lab, 3) is None:
+        if base_tree(lab, params.get("base", 3)) is None:
             return {"ok": False, "info": {"why": "base tree did not become quiet"}, "sigdata": {"symptom": "base-not-quiet"}}
         nl, nr = params["nl"], params["nr"]
         # the two sides' operation indices stay symbolic until the disjointness constraint is asserted
         pre = params.get("prefixL") or []
-        vl = [e.var("opL", 0, len(OPS) - 1) for _ in range(nl)]
+        npool = params.get("pool") or len(OPS)
+        vl = [e.var("opL", 0, npool - 1) for _ in range(nl)]
         for v_, want in zip(vl, pre):
             e.assume(v_ == want) if e.symbolic else None
-        vr = [e.var("opR", 0, len(OPS) - 1) for _ in range(nr)]
+        vr = [e.var("opR", 0, npool - 1) for _ in range(nr)]
+        for v_, want in zip(vr, params.get("prefixR") or []):
+            e.assume(v_ == want) if e.symbolic else None
         if e.symbolic:
             import z3
             bad = []
@@ -142,12 +146,24 @@ def jobs(tier):
     out = []
     if q:
         combos = [(f, 1, 1, 1) for f in ("oid", "path")] + [(f, 2, 1, 0) for f in ("oid",)]
-        # one side renames a folder and keeps working under both names (3 operations), the other side does one unrelated thing
-        out.append({"harness": "merge", "params": {"flavour": "oid", "nl": 3, "nr": 1, "slots": 0, "prefixL": [8]}, "label": "oid/3+1-ops/0-slots/first=rendir"})
     else:
         combos = [(f, 1, 1, 2) for f in ("oid", "path", "mixed", "oid-ci")] + [(f, 2, 1, 1) for f in ("oid", "path")] + [(f, 2, 2, 0) for f in ("oid",)]
+    # focused families; quick: the other side does one fixed unrelated thing (create /n); thorough: anything disjoint
+    pr = {"prefixR": [6]} if q else {}
+    for f in ("oid", "path"):
+        if f == "oid" or not q:
+            # one side renames a folder and keeps working under both names (3 operations)
+            out.append({"harness": "merge", "params": dict(pr, flavour=f, nl=3, nr=1, slots=0, prefixL=[8]), "label": "%s/3+1-ops/0-slots/first=rendir-d-e" % f})
+        # a new folder, the old one moved into it, the vacated name re-used
+        out.append({"harness": "merge", "params": dict(pr, flavour=f, nl=3, nr=1, slots=0, prefixL=[7]), "label": "%s/3+1-ops/0-slots/first=mkdir-m" % f})
+        # two synchronised folders: one is moved into the other, which then takes the vacated name
+        sl = 1 if (f == "oid" or not q) else 0
+        out.append({"harness": "merge", "params": dict(pr, flavour=f, base=4, nl=2, nr=1, slots=sl, prefixL=[16]), "label": "%s/base4/2+1-ops/%d-slot/first=rendir-d-m" % (f, sl)})
     for f, nl, nr, sl in combos:
-        out.append({"harness": "merge", "params": {"flavour": f, "nl": nl, "nr": nr, "slots": sl}, "label": "%s/%d+%d-ops/%d-slots" % (f, nl, nr, sl)})
+        p = {"flavour": f, "nl": nl, "nr": nr, "slots": sl}
+        if q:
+            p["pool"] = 16         # the generic quick families leave the two folder-into-folder moves to the focused families above
+        out.append({"harness": "merge", "params": p, "label": "%s/%d+%d-ops/%d-slots" % (f, nl, nr, sl)})
     return out
 
 
@@ -157,9 +173,9 @@ def meta(tier):
                        "integers constrained so that the object sets touched by the two sides (closed under ancestor/descendant) are disjoint; z3 enumerates the satisfying assignments, "
                        "all interleavings of the two sequences and all schedule slots; the real engine runs on each and both quiet-state trees must equal a pure reference tree "
                        "(base + both deltas), with no '.conflicted' name.",
-        "bounds": {"operations": [o[:3] for o in OPS], "per side": "1+1 (2 flavours), 2+1 (quick: object ids); thorough 1+1 x 2 slots on 4 flavours, 2+1 x 1 slot on 2, 2+2 without slots on 1", "slots": "1 (2)"},
+        "bounds": {"operations": [o[:3] for o in OPS], "per side": "quick: 1+1 (2 flavours) and 2+1 (object ids) over the first 16 operations; focused 3+1 families (folder renamed and both names used; new folder, folder moved into it, name re-used) and 2+1 from a base with two synchronised folders, all 18 operations; thorough 1+1 x 2 slots on 4 flavours, 2+1 x 1 slot on 2, 2+2 without slots on 1", "slots": "1 (2)"},
         "symbolic": ["operation indices per side under the disjointness constraint", "interleaving positions", "schedule slots"],
-        "outside": ["longer sequences", "other base trees"],
+        "outside": ["longer sequences", "other base trees", "quick: the generic families leave out the two folder-into-folder moves"],
         "stubs": ["engine lab determinisation"],
         "assumptions": ["MockProvider is a faithful provider"],
     }
